@@ -260,7 +260,10 @@ def _bind(fn, call: ast.Call, is_method: bool, recv: Optional[ast.AST]):
     if is_method and not static and ps:
         out[ps[0].arg] = recv if recv is not None else ast.Name(id="self", ctx=ast.Load())
         ps = ps[1:]
-    if any(isinstance(a, ast.Starred) for a in call.args) or any(k.arg is None for k in call.keywords):
+    dstar = [k.value for k in call.keywords if k.arg is None]
+    if any(isinstance(a, ast.Starred) for a in call.args) or len(dstar) > 1:
+        return None
+    if dstar and not isinstance(dstar[0], (ast.Name, ast.Attribute)):
         return None
     if len(call.args) > len(ps):
         return None
@@ -268,9 +271,23 @@ def _bind(fn, call: ast.Call, is_method: bool, recv: Optional[ast.AST]):
         out[p_.arg] = a
     names = [p_.arg for p_ in ps] + [p_.arg for p_ in fn.args.kwonlyargs]
     for k in call.keywords:
+        if k.arg is None:
+            continue
         if k.arg not in names or k.arg in out:
             return None
         out[k.arg] = k.value
+    if dstar:
+        # f(.., **opts): a call that works binds every remaining parameter to opts[name] if present, else to its default
+        dflt = dict(zip([p_.arg for p_ in (list(fn.args.posonlyargs) + list(fn.args.args))][::-1], list(fn.args.defaults)[::-1]))
+        for p_, d in zip(fn.args.kwonlyargs, fn.args.kw_defaults):
+            if d is not None:
+                dflt[p_.arg] = d
+        for nm in names:
+            if nm not in out:
+                if nm not in dflt:
+                    return None
+                out[nm] = ast.Call(func=ast.Attribute(value=copy.deepcopy(dstar[0]), attr="get", ctx=ast.Load()),
+                                   args=[ast.Constant(value=nm), copy.deepcopy(dflt[nm])], keywords=[])
     defaults = dict(zip([p_.arg for p_ in (list(fn.args.posonlyargs) + list(fn.args.args))][::-1], list(fn.args.defaults)[::-1]))
     for p_, d in zip(fn.args.kwonlyargs, fn.args.kw_defaults):
         if d is not None:
